@@ -1,6 +1,7 @@
 import Summer.Generated.Inspect
 import Summer.Model.Query
 import Summer.Proofs.Structure
+import Summer.Props.C13
 /-
 C13 — `query_compartments` and `query_flows` are what the SOURCE TEXT of `summer2/inspect.py` says.
 
@@ -56,6 +57,17 @@ theorem query_compartments_eq (m : Model α) (name : Option String) (flt : Strat
   rw [foldl_keep_eq_filter]
   simp only [List.nil_append]
   cases name <;> rfl
+
+
+/-- `CompartmentalModel.get_matching_compartments(name, strata)` is pinned as `return self.query_compartments({'name': name} | strata)`:
+on every model with distinct strata keys per compartment the source text of `query_compartments` selects what `Build.getMatching` (the
+selection used when flows are added to a stratified model) and the `is_match` filter select -/
+theorem get_matching_compartments_eq (m : Model α) (hk : ∀ c ∈ m.comps, KeysNodup c.strata) (name : String) (flt : Strata) :
+    query_compartments m (some name) flt = getMatching m name flt
+    ∧ query_compartments m (some name) flt = m.comps.filter (fun c => c.isMatch name flt) := by
+  have h := Summer.C13.agree_comps m hk name flt
+  rw [query_compartments_eq]
+  exact ⟨h.1.symm, h.1.symm.trans h.2.1⟩
 
 /-! ### `query_flows` with end filters that may name the compartment -/
 
@@ -191,6 +203,17 @@ theorem flowSelectedEnds_plain (n : String) (ss ds : Strata) (f : Flow α)
   unfold flowSelectedEnds Spec.flowSelected
   rw [hend ss f.src hs, hend ds f.dst hd]
 
+
+/-- with plain strata filters the repaired `query_flows` selects what every other flow matcher selects (`C13.queryFlows_eq`, `agree_flows`) -/
+theorem queryFlowsEnds_plain (m : Model α) (n : String) (ss ds : Strata)
+    (hs : ∀ kv ∈ ss, kv.1 ≠ "name") (hd : ∀ kv ∈ ds, kv.1 ≠ "name") :
+    Query.queryFlowsEnds m (some n) ss ds = Query.queryFlows m (some n) ss ds := by
+  rw [queryFlowsEnds_eq, Summer.C13.queryFlows_eq]
+  unfold selectFlowIdx
+  congr 1
+  funext f
+  exact decide_eq_decide.mpr (flowSelectedEnds_plain n ss ds f hs hd)
+
 /-- the finding repaired by the `fix:` commit, as data: asking for source compartment `I` with `age = young` no longer returns the flow out
 of `I` `age = old` -/
 def exYoung : Comp := { name := "I", strata := [("age", "young")] }
@@ -209,7 +232,9 @@ end
 
 #print axioms query_compartments_eq
 #print axioms query_flows_eq
+#print axioms get_matching_compartments_eq
 #print axioms queryFlowsEnds_eq
 #print axioms flowSelectedEnds_plain
+#print axioms queryFlowsEnds_plain
 
 end Summer.Props.C13Inspect
